@@ -76,6 +76,7 @@ func main() {
 func execLine(line string) (res string) {
 	var o Op
 	dec := json.NewDecoder(strings.NewReader(line))
+	dec.UseNumber()
 	if err := dec.Decode(&o); err != nil {
 		return "bad-op json"
 	}
